@@ -13,7 +13,7 @@ func init() {
 			r.spec.Overrides = clusterOverrides
 			return []specRef{
 				hsx(rootPkg, "VerifC28_single", P{"max_attempts": q(tier, int64(3), 4)}, 3000000, 3000, "returned"),
-				hsx(rootPkg, "VerifC28_multi", P{"max_attempts": q(tier, int64(3), 4)}, 3000000, 3000, "dropped", "returned"),
+				hsx(rootPkg, "VerifC28_multi", P{"max_attempts": q(tier, int64(3), 4)}, 3000000, 3000, "dropped", "dedicated", "returned"),
 				r,
 				hsd(rootPkg, "VerifC03_expiry", nil, q(tier, 1, 2), 3000000, 3000, "served", "failed"),
 			}
